@@ -193,6 +193,113 @@ def baseArithGuard (w v : Vec) : Bool := !(w.minIndex != v.minIndex || w.maxInde
 def baseAddAssign? (guard : Vec → Vec → Bool) (w v : Vec) : Option (Option Vec) :=
   if guard w v then (zipInto? (· + ·) w v).map some else some none
 
+/-! ### arithmetic other than `+=` (NumericVectorWithOffset.inl l.141-320, VectorWithOffset.inl l.700-769) -/
+
+/-- the scalar loops `for (i = min; i <= max; i++) num[i] = f(num[i])` of
+    `NumericVectorWithOffset::operator+=(const NUMBER&)`, `-=`, `*=`, `/=`
+    (NumericVectorWithOffset.inl l.215-257); a loop over an empty range touches nothing -/
+def mapInPlace? (f : Int → Int) (v : Vec) : Option Vec :=
+  if v.len = 0 then some v else
+  (v.contents?).bind fun cs =>
+    (writeAt? v.mem v.off (cs.map f)).map fun m => { v with mem := m }
+
+/-- the four elementwise operations; C++ `int` division truncates towards zero -/
+inductive Arith where
+  | add | sub | mul | div
+  deriving Repr, DecidableEq
+
+def Arith.fn : Arith → Int → Int → Int
+  | .add => fun x y => x + y
+  | .sub => fun x y => x - y
+  | .mul => fun x y => x * y
+  | .div => fun x y => Int.tdiv x y
+
+/-- the factor applied after `*this = v` when `*this` was empty:
+    `+=` nothing, `-=` `*= -1`, `*=` and `/=` `*= 0` (NumericVectorWithOffset.inl l.149, 167-170, 187-191, 208-212) -/
+def Arith.emptyScale : Arith → Option Int
+  | .add => none
+  | .sub => some (-1)
+  | .mul => some 0
+  | .div => some 0
+
+/-- `NumericVectorWithOffset::operator+=, -=, *=, /= (const NumericVectorWithOffset&)` on an `Array<1,int>`:
+    empty `*this` becomes a (scaled) copy of `v`; otherwise grow to the union of the ranges
+    (virtual `grow` of `Array<1>` zero-fills) and combine over `v`'s range only -/
+def numAssign? (a : Vec.Arith) (w v : Vec) : Option Vec :=
+  if w.len = 0 then
+    (w.assign? v).bind fun r =>
+      match a.emptyScale with
+      | none => some r
+      | some c => mapInPlace? (fun x => x * c) r
+  else (w.grow? (min w.minIndex v.minIndex) (max w.maxIndex v.maxIndex)).bind fun w' =>
+    zipInto? a.fn w' v
+
+/-- base class `VectorWithOffset::operator+=, -=, *=, /=` (VectorWithOffset.inl l.680-769);
+    outer `none` unsafe, inner `none` = `error()` -/
+def baseArith? (a : Vec.Arith) (guard : Vec → Vec → Bool) (w v : Vec) : Option (Option Vec) :=
+  if guard w v then (zipInto? a.fn w v).map some else some none
+
+/-- copy constructor `VectorWithOffset(const VectorWithOffset&)`: `init(); *this = il` (VectorWithOffset.inl l.527) -/
+def copyOf? (v : Vec) : Option Vec := Vec.empty.assign? v
+
+/-- `d = x op y` with `Array<1,int>::operator+ - * / (const base_type&)` (Array.inl l.851-883):
+    `Array<1> retval(*this); return retval op= iv;` (the returned reference is copied into the
+    return value), then `Array<1>::operator=` into `d` -/
+def binArith? (a : Vec.Arith) (d x y : Vec) : Option Vec :=
+  (copyOf? x).bind fun t => (numAssign? a t y).bind fun t2 => (copyOf? t2).bind fun t3 => d.assign? t3
+
+/-- `d = x op c` with `Array<1,int>::operator+ - * / (const elemT)` (Array.inl l.885-919) -/
+def binScalar? (f : Int → Int) (d x : Vec) : Option Vec :=
+  (copyOf? x).bind fun t => (mapInPlace? f t).bind fun t2 => (copyOf? t2).bind fun t3 => d.assign? t3
+
+/-- both ends of the index range agree -/
+def sameRange (w v : Vec) : Bool := w.minIndex == v.minIndex && w.maxIndex == v.maxIndex
+
+/-- `NumericVectorWithOffset::xapyb(x, a, y, b)` with scalar `a`, `b` (NumericVectorWithOffset.inl l.270-287):
+    ranges must all agree, else `error()` (inner `none`); then `*this_iter++ = (*x_iter++) * a + (*y_iter++) * b`
+    from the three `begin()`s until `this->end()`.  Operands that are the same object as `*this`
+    (`sapyb`) are read and written at the same position, so reading all values first is the same. -/
+def xapyb? (w x : Vec) (a : Int) (y : Vec) (b : Int) : Option (Option Vec) :=
+  if !(sameRange w x && sameRange w y) then some none
+  else if w.len = 0 then some (some w)
+  else
+    (readAt? x.mem x.off w.len).bind fun xs =>
+      (readAt? y.mem y.off w.len).bind fun ys =>
+        (writeAt? w.mem w.off (List.zipWith (fun p q => p * a + q * b) xs ys)).map fun m =>
+          some { w with mem := m }
+
+/-- `NumericVectorWithOffset::xapyb(x, a, y, b)` with vectors `a`, `b` (NumericVectorWithOffset.inl l.289-311) -/
+def xapybVec? (w x a y b : Vec) : Option (Option Vec) :=
+  if !(sameRange w x && sameRange w y && sameRange w a && sameRange w b) then some none
+  else if w.len = 0 then some (some w)
+  else
+    (readAt? x.mem x.off w.len).bind fun xs =>
+      (readAt? a.mem a.off w.len).bind fun as =>
+        (readAt? y.mem y.off w.len).bind fun ys =>
+          (readAt? b.mem b.off w.len).bind fun bs =>
+            (writeAt? w.mem w.off
+                (List.zipWith (fun p q => p + q) (List.zipWith (fun p q => p * q) xs as)
+                  (List.zipWith (fun p q => p * q) ys bs))).map fun m =>
+              some { w with mem := m }
+
+/-- magnitude bound under which no 32-bit overflow can occur in any operation of the alphabet
+    (`30000 * 30000 * 2 < 2^31`); operations on larger values are skipped by harness and model alike -/
+def bound : Nat := 30000
+
+def smallInt (x : Int) : Bool := x.natAbs ≤ bound
+
+/-- all elements are small -/
+def small (v : Vec) : Bool :=
+  match v.contents? with
+  | some cs => cs.all smallInt
+  | none => false
+
+/-- no element is zero (divisor check: integer division by zero is undefined behaviour in C++) -/
+def noZero (v : Vec) : Bool :=
+  match v.contents? with
+  | some cs => cs.all (fun x => x != 0)
+  | none => false
+
 /-- `operator==` -/
 def beq? (a b : Vec) : Option Bool :=
   if a.len != b.len || a.start != b.start then some false
@@ -219,6 +326,24 @@ inductive Op where
   | baseAdd (dst src : Nat)
   | recycle (r : Nat)
   | eq (a b : Nat)
+  /-- `r[dst] op= r[src]` (NumericVectorWithOffset, growing) -/
+  | arith (a : Vec.Arith) (dst src : Nat)
+  /-- `r[dst].VectorWithOffset::operator op= (r[src])` (range-checked) -/
+  | baseArith (a : Vec.Arith) (dst src : Nat)
+  /-- `r[r] op= x` -/
+  | scalar (a : Vec.Arith) (r : Nat) (x : Int)
+  /-- `r[d] = r[x] op r[y]` -/
+  | bin (a : Vec.Arith) (d x y : Nat)
+  /-- `r[d] = r[x] op c` -/
+  | binScalar (a : Vec.Arith) (d x : Nat) (c : Int)
+  /-- `r[d].xapyb(r[x], a, r[y], b)` -/
+  | xapyb (d x : Nat) (a : Int) (y : Nat) (b : Int)
+  /-- `r[d].xapyb(r[x], r[a], r[y], r[b])` -/
+  | xapybVec (d x a y b : Nat)
+  /-- `r[d].sapyb(a, r[y], b)` -/
+  | sapyb (d : Nat) (a : Int) (y : Nat) (b : Int)
+  /-- `r[d].sapyb(r[a], r[y], r[b])` -/
+  | sapybVec (d a y b : Nat)
   deriving Repr, DecidableEq
 
 /-- registers: a list of vectors (index modulo its length is done by the driver) -/
@@ -229,6 +354,7 @@ inductive Out where
   | errRange          -- exception / error() reported
   | val (x : Int)
   | bool (b : Bool)
+  | skip              -- operation not executed: an operand is too large (32-bit overflow) or a divisor is zero
   deriving Repr, DecidableEq
 
 def getR (rs : Regs) (r : Nat) : Vec := rs.getD r Vec.empty
@@ -260,6 +386,45 @@ def step (rs : Regs) : Op → Option (Regs × Out)
         | none => (rs, .errRange)
   | .recycle r => some (setR rs r Vec.empty, .ok)
   | .eq a b => ((getR rs a).beq? (getR rs b)).map fun t => (rs, .bool t)
+  | .arith a d s =>
+      if d = s then none  -- not generated
+      else if !((getR rs d).small && (getR rs s).small && (a != .div || (getR rs s).noZero)) then some (rs, .skip)
+      else ((getR rs d).numAssign? a (getR rs s)).map fun v => (setR rs d v, .ok)
+  | .baseArith a d s =>
+      if d = s then none
+      else if !((getR rs d).small && (getR rs s).small && (a != .div || (getR rs s).noZero)) then some (rs, .skip)
+      else ((getR rs d).baseArith? a Vec.baseArithGuard (getR rs s)).map fun
+        | some v => (setR rs d v, .ok)
+        | none => (rs, .errRange)
+  | .scalar a r x =>
+      if !((getR rs r).small && Vec.smallInt x && (a != .div || x != 0)) then some (rs, .skip)
+      else ((getR rs r).mapInPlace? (fun e => a.fn e x)).map fun v => (setR rs r v, .ok)
+  | .bin a d x y =>
+      if !((getR rs x).small && (getR rs y).small && (a != .div || (getR rs y).noZero)) then some (rs, .skip)
+      else (Vec.binArith? a (getR rs d) (getR rs x) (getR rs y)).map fun v => (setR rs d v, .ok)
+  | .binScalar a d x c =>
+      if !((getR rs x).small && Vec.smallInt c && (a != .div || c != 0)) then some (rs, .skip)
+      else (Vec.binScalar? (fun e => a.fn e c) (getR rs d) (getR rs x)).map fun v => (setR rs d v, .ok)
+  | .xapyb d x a y b =>
+      if !((getR rs x).small && (getR rs y).small && Vec.smallInt a && Vec.smallInt b) then some (rs, .skip)
+      else ((getR rs d).xapyb? (getR rs x) a (getR rs y) b).map fun
+        | some v => (setR rs d v, .ok)
+        | none => (rs, .errRange)
+  | .xapybVec d x a y b =>
+      if !((getR rs x).small && (getR rs y).small && (getR rs a).small && (getR rs b).small) then some (rs, .skip)
+      else ((getR rs d).xapybVec? (getR rs x) (getR rs a) (getR rs y) (getR rs b)).map fun
+        | some v => (setR rs d v, .ok)
+        | none => (rs, .errRange)
+  | .sapyb d a y b =>
+      if !((getR rs d).small && (getR rs y).small && Vec.smallInt a && Vec.smallInt b) then some (rs, .skip)
+      else ((getR rs d).xapyb? (getR rs d) a (getR rs y) b).map fun
+        | some v => (setR rs d v, .ok)
+        | none => (rs, .errRange)
+  | .sapybVec d a y b =>
+      if !((getR rs d).small && (getR rs y).small && (getR rs a).small && (getR rs b).small) then some (rs, .skip)
+      else ((getR rs d).xapybVec? (getR rs d) (getR rs a) (getR rs y) (getR rs b)).map fun
+        | some v => (setR rs d v, .ok)
+        | none => (rs, .errRange)
 
 def run : Regs → List Op → Option (Regs × List Out)
   | rs, [] => some (rs, [])
